@@ -672,12 +672,6 @@ void body(V::Ctx &ctx)
     const std::vector<Cfg> tokSplitQuick = {{65, D_EAGER}};
     const std::vector<Cfg> tokSplitThorough = {{65, D_EAGER}, {2, D_LAZY}};
     const std::vector<Cfg> &tokSplit = quick ? tokSplitQuick : tokSplitThorough;
-    if (!only || !strcmp(only, "b")) {
-        std::vector<int> idx;
-        std::string s;
-        tokenWalk(idx, s, quick ? 3 : 4, quick ? 5 : 6, tokWhole, tokSplit);
-    }
-
     // ---- (c) every single edit of valid encodings (delete a byte, replace a byte by an edit token,
     //          insert an edit token), which reaches malformed framing deep inside a body
     if (!only || !strcmp(only, "c")) {
@@ -721,6 +715,13 @@ void body(V::Ctx &ctx)
                             }
                     }
             }
+    }
+
+    // (b) runs last: it is the largest family, so a deadline cuts only its tail
+    if (!only || !strcmp(only, "b")) {
+        std::vector<int> idx;
+        std::string s;
+        tokenWalk(idx, s, quick ? 3 : 4, quick ? 4 : 5, tokWhole, tokSplit);
     }
 
     V::count("parse_calls", nParse);
